@@ -110,7 +110,7 @@ PROPS = {
         "trusted": ["net.Pipe as lossless in-memory duplex; math.Float32bits/frombits are bijections on non-NaN patterns"],
         "modelled": ["modbus/client.go, rtu.go, crc.go, tcp.go, RespReadBitsCount/RespReadRegs, data.go modelled by hand (Siot/Model/ModbusE2E.lean) on top of the C18 server model",
                      "timing (respreader, socket deadlines) is not modelled: a request the server does not answer is the outcome `timeout`",
-                     "unit id filtering and the ASCII transport are not modelled"],
+                     "the ASCII transport is not modelled; unit ids: the server and the client of a link share a unit id that varies from case to case (1..247, derived from the case text), so an id that is encoded or decoded wrongly makes the server ignore the request and shows as a time-out; a request addressed to another unit than the server's is not generated"],
         "assumptions": ["register values are 16-bit (Regs16)", "frames are delivered whole (one Read = one frame) as modbus.NewClient requires"],
     },
     "C12": {
